@@ -15,6 +15,7 @@ from checks import c19_runner as R
 
 CL_TEMP = "inplace-temp-left-after-direct-exit"
 CL_ZSTD = "inplace-zstd-rewritten-uncompressed"
+JOBS = max(1, int(os.environ.get("VERIF_JOBS", "2")))      # parallel traced runs / coqc processes
 OC = {"Missing": 0, "RefusedEarly": 1, "CreateFails": 2, "RefusedAfterCreate": 3, "StreamFails": 4, "CloseFails": 5,
       "RenameFails": 6, "ChmodFails": 7, "Succeeds": 8}
 
@@ -288,7 +289,7 @@ def run(ctx):
             crash_sc += [S[1], S[2]]
         for sc in crash_sc:
             pts = R.enumerate_crash_points(ctx, sc.files, sc.args, names=sc.names, max_points=(10 if ctx.tier == "quick" and sc is not S[0] else None), rng=rng,
-                                           workers=6)
+                                           workers=JOBS)
             for p in pts:
                 res = p["result"]
                 if not res.get("injected"):
@@ -299,7 +300,7 @@ def run(ctx):
         big = [("big.csv", csv_file(rng, 1500 if ctx.tier == "quick" else 20000, "w"), 0o640)]
         scb = Scenario("success:multi-chunk", ["--icsv", "--ojson", "cat"], big, ["Succeeds"])
         expected_transforms(ctx, scb)
-        for p in R.enumerate_crash_points(ctx, scb.files, scb.args, max_points=8 if ctx.tier == "quick" else 80, rng=rng, workers=6, syscalls=["write", "renameat", "close"]):
+        for p in R.enumerate_crash_points(ctx, scb.files, scb.args, max_points=8 if ctx.tier == "quick" else 80, rng=rng, workers=JOBS, syscalls=["write", "renameat", "close"]):
             res = p["result"]
             ctx.count(("big", p["syscall"], p["n"]))
             ctx.dist("kill:multi-chunk")
@@ -319,7 +320,7 @@ def run(ctx):
         return
     with ctx.timed("coq_cases"):
         bad, err = coq_eval_mismatches(ctx, "C19", "C19.Model C19.Harness",
-                                       "Z * list (bytes * bytes * Z * Z * list bytes) * list (bytes * bytes * Z) * list (bytes * option (bytes * Z))", "chk", terms, shard=12)
+                                       "Z * list (bytes * bytes * Z * Z * list bytes) * list (bytes * bytes * Z) * list (bytes * option (bytes * Z))", "chk", terms, shard=len(terms) // JOBS + 1)
     ctx.cov["correspondence"] = {"cases": len(terms), "mismatches": len(bad)}
     if err:
         ctx.violation({"broken": "correspondence-evaluation", "detail": err[-2000:]}, found_input=False)
